@@ -20,14 +20,14 @@ Theorem c01_unchecked_total : forall t, wf t = true -> narrow_ty t = true -> for
 Proof. exact (proj1 validate_nocrash_mut). Qed.
 
 (* the FlexVec chain walk terminates within its fuel whatever the offsets say *)
-Theorem c01_walk_terminates : forall A l os (item : A -> N -> N -> bytes -> res A),
+Theorem c01_walk_terminates : forall A l os al (item : A -> N -> N -> bytes -> res A),
   narrow l = true -> 0 < os -> isize l <= os ->
   (forall acc pos pa payload, bytes_ok payload = true -> nocrash (item acc pos pa payload)) ->
   forall acc a data pos, bytes_ok data = true ->
-    nocrash (flex_fold l os item (flex_fuel data) acc a data pos).
+    nocrash (flex_fold l os al item (flex_fuel data) acc a data pos).
 Proof.
-  intros A l os item Hn Hos Hl Hi acc a data pos Hb.
-  apply (flex_fold_nocrash l os item Hn Hos Hl Hi); [exact Hb|]. unfold flex_fuel. apply PeanoNat.Nat.lt_succ_diag_r.
+  intros A l os al item Hn Hos Hl Hi acc a data pos Hb.
+  apply (flex_fold_nocrash l os al item Hn Hos Hl Hi); [exact Hb|]. unfold flex_fuel. apply PeanoNat.Nat.lt_succ_diag_r.
 Qed.
 
 (* known finding (D15): with a length type wider than usize the stored length is converted with
